@@ -81,6 +81,14 @@ func init() {
 		"strconv.FormatUint": func(m *Machine, a []Value, _ *frame) Value {
 			return m.formatInt(a[0].(*Term), m.concreteInt(a[1].(*Term), "base"), false)
 		},
+		// the reference model's own decimal formatter (a digit loop): same function as strconv.Itoa
+		"github.com/nlnwa/whatwg-url/internal/whatwgmodel.itoa": func(m *Machine, a []Value, _ *frame) Value {
+			n := a[0].(*Term)
+			if m.branch(m.st.Bin(OpSLe, n, m.st.Const(n.w, 0))) {
+				return m.strConst("0") // the model's itoa returns "0" for n <= 0
+			}
+			return m.formatInt(n, 10, false)
+		},
 		// ---- unicode / utf8
 		"unicode.Is":      func(m *Machine, a []Value, _ *frame) Value { return m.unicodeIs(a[0], a[1].(*Term)) },
 		"unicode.ToLower": func(m *Machine, a []Value, _ *frame) Value { return m.runeToLower(a[0].(*Term)) },
@@ -516,9 +524,18 @@ func (m *Machine) formatInt(v *Term, base int, signed bool) Value {
 		pw *= uint64(base)
 	}
 	// work at the narrowest sufficient width to keep division cheap
+	// The branch decisions above put mag < base^nd into the path condition, so the digits can
+	// be computed at the narrowest width that holds base^nd (dividers are expensive to bit-blast).
 	work := mag
-	if nd <= 9 && mag.w > 32 {
-		work = st.Trunc(mag, 32)
+	lim := uint64(1)
+	for i := 0; i < nd && lim < 1<<40; i++ {
+		lim *= uint64(base)
+	}
+	for _, nw := range []uint8{8, 16, 32} {
+		if nw < mag.w && lim <= mask(nw) {
+			work = st.Trunc(mag, nw)
+			break
+		}
 	}
 	digits := make([]*Term, nd)
 	div := uint64(1)
